@@ -24,6 +24,8 @@ def check(run):
     quick = run.tier == "quick"
     run.regenerate()
     run.lean_props(common.modules_for("C16"))
+    from .. import glue_grid
+    glue_grid.corr_dispatch(run, quick)   # Lean model of the dispatcher vs the real class, op by op
     rng = run.rng
     Grid = spherical.Grid
 
@@ -177,12 +179,14 @@ def check(run):
                     if s1 == 0:
                         v("supported-operation-raised", f"Grid.{name}", inp, "Grid", repr(e))
         # shape mismatch
-        ga, gb = mkgrid(rng, 0, lead, 5, 5), mkgrid(rng, 0, lead, 5, 6)
-        for name, op in (("add", lambda: ga + gb), ("multiply", lambda: ga * gb), ("divide", lambda: ga / gb), ("subtract", lambda: ga - gb), ("add-method", lambda: ga.add(gb)), ("multiply-method", lambda: ga.multiply(gb))):
-            run.gap_case("shape-mismatch", (name, lead), "must-raise")
+        for (sa, sb) in [((5, 5), (5, 6)), ((5, 5), (1, 5)), ((5, 5), (5, 1)), ((5, 5), (1, 1)), ((1, 7), (7, 7)), ((3, 1), (3, 4))]:
+          ga, gb = mkgrid(rng, 0, lead, *sa), mkgrid(rng, 0, lead, *sb)
+          for name, op in (("add", lambda: ga + gb), ("multiply", lambda: ga * gb), ("divide", lambda: ga / gb), ("subtract", lambda: ga - gb), ("add-method", lambda: ga.add(gb)), ("multiply-method", lambda: ga.multiply(gb)),
+                         ("np.multiply-out", lambda: np.multiply(ga, gb, out=mkgrid(rng, 0, lead, *sa))), ("reflected-add", lambda: gb + ga), ("in-place-multiply", lambda: _imul(ga.copy(), gb))):
+            run.gap_case("shape-mismatch", (name, lead, sa, sb), "must-raise" + ("|broadcastable" if 1 in sa + sb else ""))
             try:
                 op()
-                v("mismatched-grid-shapes-returned", f"Grid.{name}", {"lead": list(lead)}, "raise", "returned")
+                v("mismatched-grid-shapes-returned", f"Grid.{name}", {"lead": list(lead), "grid_a": list(sa), "grid_b": list(sb)}, "raise", "returned")
             except Exception:
                 pass
     # outside the allow-list
@@ -203,6 +207,11 @@ def check(run):
     except Exception as e:
         v("supported-operation-raised", "np.isfinite", {}, "bool array", repr(e))
     run.assumptions += ["values compared with the same numpy ufunc applied to the raw ndarray views"]
+
+
+def _imul(a, b):
+    a *= b
+    return a
 
 
 def replay(body):
